@@ -28,7 +28,7 @@ from . import c04
 
 RULE = ("pattern copies sharing atoms: hetero chains A-B-A-B-.. with unequal / equal spacings (2-4 copies), homonuclear chains "
         "(2-4 copies, neighbours share two atoms), stars of 2-4 two- or three-atom arms on a common centre, two triangles "
-        "on a common edge, a 4-ring, disjoint copies; random rigid pose and origin (also across cell faces) in "
+        "on a common edge, a 4-ring, a chain that closes on itself THROUGH the periodic boundary (cell edge = chain period; 2-4 copies), disjoint copies; random rigid pose and origin (also across cell faces) in "
         "orthorhombic / triclinic / rotated cells, bystander atoms; replacement: every subset of search atoms retained, "
         "the others dropped, swapped for another element, or kept as the same element NUDGED by 1e-4..0.03 A (not shared by the "
         "documented 1e-5 A rule although within the search tolerance), optional extra atom, EMPTY replacement (plain Atoms(); the search pattern with every atom deleted; zero atoms + type tables; "
@@ -62,6 +62,17 @@ def template(rng, kind, ncopies):
             els.append(B)
             xs.append(xs[-1] + d2)
             els.append(A)
+        return els, [(x, F(0), F(0)) for x in xs], ([A, B, A], [(F(0), F(0), F(0)), (d1, F(0), F(0)), (d1 + d2, F(0), F(0))])
+    if kind == "ring_pbc":
+        # a chain A-B-A-B-... that closes on itself THROUGH the periodic boundary: the cell edge along the chain is
+        # exactly ncopies x (d1 + d2), so the last copy ends on the first atom's image; neighbours share an end atom,
+        # and with two copies the two matches share BOTH end atoms
+        d1 = _d(rng)
+        d2 = d1 if rng.random() < 0.4 else d1 + F(rng.randint(2, 4), 8)
+        els, xs = [], []
+        for i in range(ncopies):
+            els += [A, B]
+            xs += [(d1 + d2) * i, (d1 + d2) * i + d1]
         return els, [(x, F(0), F(0)) for x in xs], ([A, B, A], [(F(0), F(0), F(0)), (d1, F(0), F(0)), (d1 + d2, F(0), F(0))])
     if kind == "homo":
         d = _d(rng)
@@ -99,13 +110,51 @@ def template(rng, kind, ncopies):
     raise ValueError(kind)
 
 
-KINDS = ["chain", "chain_sym", "homo", "star2", "star3", "edge", "ring", "disjoint"]
-MAXCOPIES = {"chain": 4, "chain_sym": 4, "homo": 4, "star2": 4, "star3": 4, "edge": 2, "ring": 2, "disjoint": 3}
+KINDS = ["chain", "chain_sym", "homo", "star2", "star3", "edge", "ring", "disjoint", "ring_pbc"]
+MAXCOPIES = {"chain": 4, "chain_sym": 4, "homo": 4, "star2": 4, "star3": 4, "edge": 2, "ring": 2, "disjoint": 3, "ring_pbc": 4}
+
+
+def build_ring_pbc(rng, els, pts, pat, ncopies, cell_kind=None):
+    """the chain along a cell edge whose length is exactly the chain's period; orthorhombic (any axis) or LAMMPS-triclinic
+    (chain along the first lattice vector)"""
+    period = float(pat[1][2][0]) * ncopies
+    b, c = [rng.randint(64, 88) / 8.0 for _ in range(2)]
+    cell_kind = cell_kind if cell_kind in ("ortho", "tri+", "tri-") else rng.choice(["ortho", "ortho", "tri+", "tri-"])
+    if cell_kind == "ortho":
+        axis = rng.randrange(3)
+        edges = [b, c]
+        edges.insert(axis, period)
+        cellf = np.diag(edges)
+    else:
+        axis = 0
+        sg = 1.0 if cell_kind == "tri+" else -1.0
+        t = lambda: sg * rng.randint(2, 16) / 8.0
+        cellf = np.array([[period, 0, 0], [t(), b, 0], [t(), rng.choice([1, -1]) * t(), c]])
+    cinv = np.linalg.inv(cellf)
+    origin = np.array([rng.choice([0.0, 0.01, 0.5, 0.99]) if rng.random() < 0.4 else rng.random() for _ in range(3)]).dot(cellf)
+    pos = []
+    for q in pts:
+        v = np.zeros(3)
+        v[axis] = float(q[0])
+        fr = (v + origin).dot(cinv) % 1.0
+        fr[fr >= 1.0] = 0.0
+        pos.append(fr.dot(cellf))
+    els = list(els)
+    for _ in range(rng.randint(0, 2)):
+        for attempt in range(40):
+            v = np.array([rng.random() for _ in range(3)]).dot(cellf)
+            if all(np.linalg.norm(((v - qpt).dot(cinv) - np.round((v - qpt).dot(cinv))).dot(cellf)) >= 3.2 for qpt in pos):
+                els.append(rng.choice(["F", "Cl", "Br"]))
+                pos.append(v)
+                break
+    return {"elems": els, "pos": [[float(x) for x in v] for v in pos], "cell": [[float(v) for v in row] for row in cellf], "pattern": pat}
 
 
 def build(rng, kind, ncopies, cell_kind=None, pose=None):
     """place the template rigidly in a periodic cell, add bystanders. Returns dict(elems, pos, cell, pattern)"""
     els, pts, pat = template(rng, kind, ncopies)
+    if kind == "ring_pbc":
+        return build_ring_pbc(rng, els, pts, pat, ncopies, cell_kind)
     ext = max(float(max(abs(c) for c in p)) for p in pts) * 2 + 1.0
     cell_kind = cell_kind or rng.choice(["ortho", "ortho", "tri+", "tri-", "rot"])
     while True:
@@ -201,7 +250,7 @@ def make_case(rng, kind=None, ncopies=None, retain=None, other=None, extra=None,
     if f is None:
         f = 1.0 if rng.random() < 0.8 else rng.choice([0.5, 0.67, 0.75, 0.34])
     return {"op": "replace-c07", "sj": sj, "pj": pj, "rj": rj, "atol": rng.choice([0.05, 0.05, 0.05, 0.02, 0.1]), "f": f,
-            "return_num": bool(rng.random() >= 0.15), "rj_src": rj_src,
+            "return_num": bool(rng.random() >= 0.15), "rj_src": rj_src, "np_args": bool(rng.random() < 0.25),
             "replace_all": bool(rng.random() < 0.3 if replace_all is None else replace_all),
             "ignore": bool(rng.random() < 0.4 if ignore is None else ignore), "seed": rng.randrange(1 << 30),
             "info": {"kind": kind, "copies": ncopies, "retain": sorted(retain), "other": other, "extra": bool(extra),
@@ -287,7 +336,7 @@ def tags_of(inp, out):
     t = ["kind:" + i["kind"], "copies:%d" % i["copies"], "retain:%s" % "".join(str(j) for j in i["retain"]) if i["retain"] else "retain:none",
          "other:" + i["other"], "extra:%s" % i["extra"], "replace_all:%s" % inp["replace_all"], "ignore:%s" % inp["ignore"],
          "r_empty:%s" % (i["r_atoms"] == 0), "empty-kind:%s" % i.get("empty_kind", "-"), "f:%s" % ("1" if inp["f"] >= 1 else "<1"), "atol:%g" % inp["atol"],
-         "return_num_matches:%s" % inp.get("return_num", True)]
+         "return_num_matches:%s" % inp.get("return_num", True), "numpy-typed-args:%s" % bool(inp.get("np_args"))]
     if out.get("used") is not None:
         t.append("selected:%d" % len(out["used"]))
         t.append("share-atoms:%s" % shares(out))
@@ -477,7 +526,7 @@ def run(ctx, oracle_only=False, scale=1):
     rng = ctx.rng
     inps = [make_case(rng) for _ in range(ctx.n(1000, 6000) * scale)]
     # the three situations of the property on the simplest carrier, every run
-    for kind in ("chain", "star2", "homo", "ring"):
+    for kind in ("chain", "star2", "homo", "ring", "ring_pbc"):
         for retain in ([0, 2], [0], [2], [1], []):
             if kind == "star2" and max(retain or [0]) > 1:
                 continue
